@@ -1,4 +1,4 @@
-SPECIFICATION Spec
+SPECIFICATION MCSpec
 CONSTANTS
   BITS = 2
   Thresh = 3
@@ -13,7 +13,7 @@ CONSTANTS
   NumSet <- MCNums
   StrSet <- MCStrs
   ByteStrs <- MCBytes
-  BlockSet <- MCBlocks
+  BlockSet = {}
   PrefSet <- MCPrefs
   BufSet <- MCBufs
   DataSet <- MCData
